@@ -159,10 +159,17 @@ func (g *gen) next(i int) string {
 		}
 	case "fmt", "diff":
 		op := g.stream + " "
+		if os.Getenv("BCL_ONLY") == "shapes" { // development: only the shapes generator
+			h.Count("gen.shapes")
+			return op + vh.Hex([]byte(g.shapes()))
+		}
 		switch c := h.Rng.IntN(20); {
-		case c < 13:
+		case c < 11:
 			h.Count("gen.valid")
 			return op + vh.Hex([]byte(g.validDoc(4+h.Rng.IntN(40)).String()))
+		case c < 13:
+			h.Count("gen.shapes")
+			return op + vh.Hex([]byte(g.shapes()))
 		case c < 16:
 			h.Count("gen.repomut")
 			return op + vh.Hex([]byte(g.repoMutation(60)))
@@ -722,6 +729,245 @@ func (g *gen) validDoc(budget int) *doc {
 		d.raw(vh.Pick(h, []string{" ", "\t", "  \n  "}))
 	}
 	return d
+}
+
+// uniSpaces are the runes other than ' ', tab and newline for which unicode.IsSpace holds (no '\r': the
+// property is about CRLF-free text): the lexer skips them between tokens, the formatter prints ' '.
+var uniSpaces = []string{"\v", "\f", "\u0085", "\u00a0", "\u1680", "\u2003", "\u2028", "\u2029", "\u202f", "\u3000"}
+
+// sp is white space between two tokens of a shape: mostly ' ' / tab, sometimes a Unicode space.
+func (g *gen) sp() string {
+	h := g.h
+	switch c := h.Rng.IntN(10); {
+	case c < 5:
+		return " "
+	case c < 6:
+		return "\t"
+	case c < 7:
+		return "  "
+	case c < 9:
+		return vh.Pick(h, uniSpaces)
+	default:
+		return " " + vh.Pick(h, uniSpaces) + "\t"
+	}
+}
+
+// blankish is the content of a line that holds no token.
+func (g *gen) blankish() string {
+	h := g.h
+	switch c := h.Rng.IntN(8); {
+	case c < 4:
+		return ""
+	case c < 5:
+		return " "
+	case c < 6:
+		return "\t\t"
+	default:
+		return vh.Pick(h, uniSpaces) + vh.Pick(h, []string{"", " ", "\t"})
+	}
+}
+
+func (g *gen) descLine() string {
+	h := g.h
+	switch c := h.Rng.IntN(12); {
+	case c < 1:
+		return "|"
+	case c < 2:
+		return "|" + g.sp()
+	case c < 3:
+		return "|" + vh.Pick(h, uniSpaces) + g.descText()
+	case c < 4: // very long words, also with token-like content
+		return "| " + strings.Repeat(vh.Pick(h, []string{"w", "é", "|", "/", "ab"}), 60+h.Rng.IntN(200)) + " " + vh.Pick(h, []string{"x", "//c", "/*c*/", "}", "| y"})
+	default:
+		return "|" + vh.Pick(h, []string{" ", "", "  ", "\t"}) + g.descText()
+	}
+}
+
+// shapes: documents built around the constructions the whole-file proof of C09 has to treat one by one
+// (what follows a fragment on its line, what separates two fragments, which white space separates tokens).
+func (g *gen) shapes() string {
+	h := g.h
+	var b strings.Builder
+	ref := func() string { return strings.Join(g.reference(), "") }
+	tag := func() string {
+		s := ""
+		if h.Chance(1, 3) {
+			s = vh.Pick(h, []string{"!", "?"}) + vh.Pick(h, []string{"", " ", g.sp()})
+		}
+		if h.Chance(1, 3) {
+			return s + g.stringLit()
+		}
+		return s + ref()
+	}
+	hdr := func() string {
+		s := ref()
+		for k := h.Rng.IntN(3); k > 0; k-- {
+			s += g.sp() + tag()
+		}
+		for k := h.Rng.IntN(3); k > 0; k-- {
+			s += vh.Pick(h, []string{":", " : ", ":" + g.sp(), g.sp() + ":"}) + tag()
+		}
+		return s
+	}
+	scalar := func() string {
+		switch h.Rng.IntN(7) {
+		case 0:
+			return g.stringLit()
+		case 1:
+			return g.number()
+		case 2:
+			return vh.Pick(h, []string{"true", "false"})
+		case 3:
+			return g.regexLit()
+		case 4:
+			return ref()
+		case 5:
+			return g.blockComment()
+		default:
+			return "\"a\\\nb\"" // a string over two lines
+		}
+	}
+	assign := func() string {
+		s := ref() + vh.Pick(h, []string{" = ", "=", " += ", "+=", g.sp() + "=" + g.sp(), " +" + g.sp() + "= "})
+		switch c := h.Rng.IntN(10); {
+		case c < 1:
+			return s + "//" + g.commentText()
+		case c < 2:
+			return s + g.descLine()
+		case c < 4:
+			n := h.Rng.IntN(4)
+			var es []string
+			for k := 0; k < n; k++ {
+				es = append(es, scalar())
+			}
+			s += "[" + vh.Pick(h, []string{"", " ", g.sp()}) + strings.Join(es, vh.Pick(h, []string{",", ", ", " , ", "," + g.sp()})) + "]"
+		default:
+			s += scalar()
+		}
+		if h.Chance(1, 3) {
+			s += vh.Pick(h, []string{" ", "", g.sp()}) + "//" + g.commentText()
+		}
+		return s
+	}
+	indent := func(depth int) string {
+		switch c := h.Rng.IntN(8); {
+		case c < 4:
+			return strings.Repeat("\t", depth)
+		case c < 5:
+			return ""
+		case c < 6:
+			return strings.Repeat(" ", h.Rng.IntN(9))
+		default:
+			return vh.Pick(h, uniSpaces) + strings.Repeat("\t", h.Rng.IntN(3))
+		}
+	}
+	depth := 0
+	for n := 1 + h.Rng.IntN(10); n > 0; n-- {
+		switch c := h.Rng.IntN(16); {
+		case c < 2: // description blocks separated by one line without token, or by a comment
+			b.WriteString(indent(depth) + g.descLine() + "\n")
+			if h.Chance(1, 2) {
+				b.WriteString(indent(depth) + g.descLine() + "\n")
+			}
+			switch h.Rng.IntN(4) {
+			case 0:
+				b.WriteString(g.blankish() + "\n")
+			case 1:
+				b.WriteString(g.blankish() + "\n" + g.blankish() + "\n")
+			case 2:
+				b.WriteString(indent(depth) + "//" + g.commentText() + "\n")
+			}
+			b.WriteString(indent(depth) + g.descLine() + "\n")
+		case c < 4: // header with a description, a description block right after it
+			b.WriteString(indent(depth) + hdr() + g.sp() + g.descLine() + "\n")
+			if h.Chance(2, 3) {
+				b.WriteString(indent(depth) + g.descLine() + "\n")
+			}
+		case c < 6: // open header, trailing comment or not
+			b.WriteString(indent(depth) + hdr() + vh.Pick(h, []string{" {", "{", g.sp() + "{"}))
+			if h.Chance(1, 3) {
+				b.WriteString(vh.Pick(h, []string{" ", "", g.sp()}) + "//" + g.commentText())
+			}
+			b.WriteString(vh.Pick(h, []string{"", " ", "\t"}) + "\n")
+			depth++
+		case c < 8: // closing braces, several on a line, followed by other fragments
+			if depth == 0 && !h.Chance(1, 8) {
+				b.WriteString(indent(depth) + assign() + "\n")
+				break
+			}
+			b.WriteString(indent(depth) + "}")
+			if depth > 0 {
+				depth--
+			}
+			for depth > 0 && h.Chance(1, 3) {
+				b.WriteString(vh.Pick(h, []string{" ", "", g.sp()}) + "}")
+				depth--
+			}
+			switch h.Rng.IntN(8) {
+			case 0:
+				b.WriteString(g.sp() + "//" + g.commentText())
+			case 1:
+				b.WriteString(g.sp() + g.descLine())
+			case 2:
+				b.WriteString(g.sp() + g.blockComment() + vh.Pick(h, []string{"", " }", " " + assign()}))
+			case 3:
+				b.WriteString(g.sp() + assign())
+			case 4:
+				b.WriteString(g.sp() + hdr())
+			}
+			b.WriteString("\n")
+		case c < 10:
+			b.WriteString(indent(depth) + assign() + "\n")
+		case c < 11: // block comments followed by other fragments on their last line
+			b.WriteString(indent(depth) + g.blockComment())
+			switch h.Rng.IntN(5) {
+			case 0:
+				b.WriteString(g.sp() + assign())
+			case 1:
+				b.WriteString(g.sp() + "//" + g.commentText())
+			case 2:
+				b.WriteString(g.sp() + g.descLine())
+			case 3:
+				b.WriteString(g.sp() + g.blockComment() + g.sp() + hdr())
+			}
+			b.WriteString("\n")
+		case c < 12: // plain header
+			b.WriteString(indent(depth) + hdr())
+			if h.Chance(1, 2) {
+				b.WriteString(vh.Pick(h, []string{" ", "", g.sp()}) + "//" + g.commentText())
+			}
+			b.WriteString(g.blankish() + "\n")
+		case c < 13: // deep nesting: the description width becomes small, zero, negative
+			k := 14 + h.Rng.IntN(12)
+			for j := 0; j < k; j++ {
+				b.WriteString("b {\n")
+			}
+			b.WriteString(g.descLine() + "\n" + g.descLine() + "\n")
+			if h.Chance(1, 2) {
+				b.WriteString(strings.Repeat("}\n", k))
+			} else {
+				b.WriteString(strings.Repeat("} ", k) + "\n")
+			}
+		case c < 14:
+			b.WriteString(indent(depth) + "//" + g.commentText() + "\n")
+		default:
+			for k := 1 + h.Rng.IntN(3); k > 0; k-- {
+				b.WriteString(g.blankish() + "\n")
+			}
+		}
+	}
+	for ; depth > 0; depth-- {
+		b.WriteString(vh.Pick(h, []string{"}\n", "} ", "}", "\t}\n"}))
+	}
+	switch h.Rng.IntN(6) {
+	case 0:
+		return strings.TrimRight(b.String(), "\n")
+	case 1:
+		return b.String() + "/* open" + vh.Pick(h, []string{"", " *", "\n x"})
+	case 2:
+		return b.String() + g.blankish()
+	}
+	return b.String()
 }
 
 // stress: deep nesting, long tokens, many statements, many diagnostics.
